@@ -87,6 +87,18 @@ fn random_entry_points(src: &mut Src, obs: &mut Obs) -> Res {
             c["query_only_path"] = json!(ps);
             return Err(Failure::new("query, query_only_path and query_with_path do not return the same nodes position by position", c));
         }
+        // "the same nodes": the paths listed by query_only_path must spell the very nodes query returned
+        // (where no name selector is double-quoted or escaped - a path step made from such a selector is
+        // the open finding K2 of C03; steps made by wildcards, descendants and filters are not affected)
+        if !text.contains('"') && !text.contains('\\') {
+            let via_paths: Vec<Option<Loc>> = ps.iter().map(|p| crate::recog::path_to_loc(p)).collect();
+            if via_paths != *vs {
+                let mut c = case();
+                c["query_only_path"] = json!(ps);
+                c["nodes_of_query(by address)"] = json!(vs.iter().map(|l| l.as_ref().map(|l| normalized_path(l))).collect::<Vec<_>>());
+                return Err(Failure::new("query_only_path reports paths that do not lead to the nodes query returns at the same positions", c));
+            }
+        }
         // parse once, evaluate twice
         for round in 0..2 {
             match libx::process(&v, &map, ast) {
